@@ -59,7 +59,7 @@ def one(name, extra_checks):
         p = sh(["/venv/bin/python", demo], env=env_for(wt), cwd=wt, timeout=600)
         meta["demo_with_patch_exit"] = p.returncode
         meta["demo_with_patch_tail"] = (p.stdout + p.stderr).strip().splitlines()[-1][:300] if (p.stdout + p.stderr).strip() else ""
-        for c in [prop] + [x for x in extra_checks if x != prop]:
+        for c in ([] if os.environ.get("ONLY_ALSO") else [prop]) + [x for x in extra_checks if x != prop]:
             env = dict(os.environ, VERIF_REPO=wt, VERIF_JOBS=os.environ.get("SENS_JOBS", "4"))
             if c != prop and os.environ.get("ALSO_FRAC"):
                 env["VERIF_FRAC"] = os.environ["ALSO_FRAC"]
@@ -82,7 +82,7 @@ def main():
         args = [a for a in args if a != ",".join(extra)]
     if args:
         names = [n for n in names if any(a in n for a in args)]
-    with cf.ThreadPoolExecutor(max_workers=4) as ex:
+    with cf.ThreadPoolExecutor(max_workers=3) as ex:
         for meta in ex.map(lambda n: one(n, extra), names):
             old = {}
             mp = os.path.join(SEEDED, meta["id"], "meta.json")
@@ -90,6 +90,10 @@ def main():
                 old = json.load(open(mp))
             if meta.pop("_keep", False):
                 meta.pop("ran", None)
+            if os.environ.get("ONLY_ALSO") and "ran" in meta and "ran" in old:
+                seen = {r["cmd"].split()[3] for r in meta["ran"]}
+                meta["ran"] = [r for r in old["ran"] if r["cmd"].split()[3] not in seen] + meta["ran"]
+                meta["detected_by"] = [r["cmd"].split()[3] for r in meta["ran"] if r["exit"] == 1]
             old.update(meta)
             json.dump(old, open(mp, "w"), indent=1)
             ok = meta.get("patch_applies") and meta.get("demo_without_patch_exit") == 0 and meta.get("demo_with_patch_exit", 0) != 0 and "passed" in str(meta.get("suite_with_patch")) and "failed" not in str(meta.get("suite_with_patch"))
